@@ -12,14 +12,14 @@ EFF_FAMILIES = {
     "C02": ["PROV", "FRAME-view", "CALLS"],
     "C04": ["FRAME-book"],
     "C05": ["CALLS", "PROV", "FRAME-kernel"],
-    "C07": ["READS-rng"],
+    "C07": ["READS-rng", "INIT"],          # equal seed => equal run also on a used instance (histories)
     "C08": ["INIT", "FRAME-book"],
     "C09": ["FRAME-cfg"],
     "C10": ["POP-own", "LEN"],
     "C11": ["POOL-pure"],
     "C12": ["READS-dir", "READS-rng"],
     "C15": ["FRAME-view", "FRAME-book", "POP-own"],
-    "C17": ["ELITE"],
+    "C17": ["ELITE", "INIT"],              # elitism over all histories: a run must not start from a previous run's state
     "C18": ["CTOR", "INIT"],
 }
 BND_MONITORS = {
@@ -130,13 +130,16 @@ def _bnd_component(R, pid, tier, seed):
             "C07": sc in ("repro", "repro0"), "C08": sc in ("reuse", "reuse2", "reuse3", "reuse_dim"), "C18": sc in ("setcfg", "setcfg2"),
             "C01": sc in ("single", "reuse3", "reuse_dim"), "C02": sc in ("single", "reuse3", "reuse_dim"),
             "C03": sc in ("single", "reuse3", "reuse_dim"),
-            "C12": sc in ("duality", "duality_reuse") or (sc == "single" and c.get("debug")),
-            "C09": sc in ("single", "rejected"), "C06": sc in ("single", "rejected", "reuse_dim", "reuse2", "reuse3"),
+            "C12": sc in ("duality", "duality_reuse", "duality_nan") or (sc == "single" and c.get("debug")),
+            "C09": sc in ("single", "rejected", "noseed"), "C06": sc in ("single", "rejected", "reuse_dim", "reuse2", "reuse3", "reuse", "setcfg", "setcfg2"),
             "C10": sc in ("single", "setcfg2"),
             "C11": c.get("mode") in ("thread", "process"),
+            "C05": c.get("kind") != "nanobj" and sc in ("single", "reuse", "reuse2", "reuse3", "reuse_dim", "setcfg", "setcfg2", "repro", "repro0", "duality", "duality_reuse"),
         }.get(pid, sc == "single")
         if not relevant:
             continue
+        if str(c.get("scale", "")).startswith("small") and (pid not in ("C10", "C17") or r.get("exc")):
+            continue        # below the documented scale: only completed runs, only the size and elitism clauses
         if pid == "C12" and c["opt"] in exp["C12_excluded"]:
             continue
         if pid == "C17" and c["opt"] not in exp["elitist"] and c["opt"] not in exp.get("monotone_in_campaign_not_structural", []):
@@ -180,7 +183,8 @@ def _bnd_component(R, pid, tier, seed):
                 msgs[kq] = r["monitors"][mon]
             if pid == "C12" and sc == "single" and "C02" in r.get("monitors", {}):
                 msgs[f"BND.C12.{c['opt']}.debug"] = r["monitors"]["C02"]
-            if r.get("exc") and pid in ("C07", "C08", "C18", "C12"):
+            if r.get("exc") and pid in ("C07", "C08", "C18", "C12") and c.get("kind") != "nanobj":   # (an objective that is NaN
+                #                                               somewhere is outside the valid tasks: its exceptions are not looked at)
                 e = r["exc"]
                 if not _known_exc(exp, c["opt"], e, c["kind"]):
                     msgs[f"BND.{pid}.{c['opt']}.{e['type']}"] = f"{e['type']} in {e['where']}: {e['msg']}"
@@ -195,6 +199,8 @@ def _bnd_component(R, pid, tier, seed):
                 pairs.setdefault((c["opt"], c["kind"]), []).append(r)
         failing_today = {tuple(x) for x in exp["C06_intcoded_failing_pairs"]}
         for (opt, kind), rs in sorted(pairs.items()):
+            longest = max(x.get("cycles_budget", 0) for x in rs)
+            rs = [x for x in rs if x.get("cycles_budget", 0) == longest]      # "wholesale": every run with the full budget fails
             if all(x.get("exc") for x in rs) and (opt, kind) not in failing_today:
                 e = rs[0]["exc"]
                 viol.setdefault(f"BND.C06.{opt}.{kind}.wholesale", (f"every run of {opt} on the {kind} task now fails: {e['type']} in {e['where']}: {e['msg']}", rs[0]))
